@@ -30,6 +30,10 @@ pub struct Case {
     /// history cases: the builder's earlier life (absent = the builder is configured once)
     #[serde(default, skip_serializing_if = "Option::is_none")]
     pub first: Option<First>,
+    /// order cases: keys that permute the setter / builder-transforming calls (stable sort of the call indices by key);
+    /// absent = the canonical order
+    #[serde(default, skip_serializing_if = "Option::is_none")]
+    pub order: Option<Vec<u16>>,
 }
 
 #[derive(Debug, Clone, Serialize, Deserialize)]
@@ -84,6 +88,8 @@ fn check_case(c: &Case, obs: &mut Obs) {
         obs.skip("unknown_builder");
         return;
     };
+    crate::core::set_order(c.order.clone());
+    obs.class_if(c.order.is_some(), "setter_order_permuted");
     let vals = padded(b, &c.vals);
     if b.params.len() != vals.len() || vals.iter().any(|v| !v.is_finite()) {
         obs.skip("malformed_case");
@@ -176,12 +182,12 @@ fn single_rows() -> Vec<Case> {
     let mut out = vec![];
     for b in builders::registry() {
         let defaults: Vec<f64> = b.params.iter().map(|p| p.default).collect();
-        out.push(Case { builder: b.id.to_string(), vals: defaults.clone(), seed: 1, first: None });
+        out.push(Case { builder: b.id.to_string(), vals: defaults.clone(), seed: 1, first: None, order: None });
         for (i, p) in b.params.iter().enumerate() {
             for (k, g) in p.grid().into_iter().enumerate().skip(1) {
                 let mut vals = defaults.clone();
                 vals[i] = g;
-                out.push(Case { builder: b.id.to_string(), vals, seed: (i * 31 + k) as u64, first: None });
+                out.push(Case { builder: b.id.to_string(), vals, seed: (i * 31 + k) as u64, first: None, order: None });
             }
         }
     }
@@ -202,7 +208,7 @@ fn pair_rows() -> Vec<Case> {
                         let mut vals = defaults.clone();
                         vals[i] = *x;
                         vals[j] = *y;
-                        out.push(Case { builder: b.id.to_string(), vals, seed: (a * 17 + c) as u64, first: None });
+                        out.push(Case { builder: b.id.to_string(), vals, seed: (a * 17 + c) as u64, first: None, order: None });
                     }
                 }
             }
@@ -226,7 +232,7 @@ fn full_product(limit: usize) -> Vec<Case> {
                 vals.push(g[k % g.len()]);
                 k /= g.len();
             }
-            out.push(Case { builder: b.id.to_string(), vals, seed: (out.len() % 7) as u64, first: None });
+            out.push(Case { builder: b.id.to_string(), vals, seed: (out.len() % 7) as u64, first: None, order: None });
         }
     }
     out
@@ -272,7 +278,7 @@ fn combo_strategy() -> impl Strategy<Value = Case> {
         move |(bi, mode, picks, which, seed)| {
             let reg = builders::registry();
             let b = &reg[idx(bi, n)];
-            Case { builder: b.id.to_string(), vals: assignment(b, mode, &picks, which), seed, first: None }
+            Case { builder: b.id.to_string(), vals: assignment(b, mode, &picks, which), seed, first: None, order: None }
         },
     )
 }
@@ -299,7 +305,7 @@ fn history_strategy() -> impl Strategy<Value = Case> {
                     *x = *y;
                 }
             }
-            Case { builder: b.id.to_string(), vals, seed, first: Some(First { vals: v1, action, on_clone }) }
+            Case { builder: b.id.to_string(), vals, seed, first: Some(First { vals: v1, action, on_clone }), order: None }
         })
 }
 
@@ -328,6 +334,7 @@ fn history_rows() -> Vec<Case> {
                             vals: v2.clone(),
                             seed: (ia + ib) as u64 % 5,
                             first: Some(First { vals: v1.clone(), action: var % 3, on_clone: var >= 3 }),
+                            order: None,
                         });
                     }
                 }
@@ -335,6 +342,44 @@ fn history_rows() -> Vec<Case> {
         }
     }
     out
+}
+
+/// systematic orders over up to 12 calls: reversed, and "call j last" / "call j first" for every j
+fn systematic_orders() -> Vec<Vec<u16>> {
+    let mut v = vec![(0..12u16).map(|i| 12 - i).collect::<Vec<u16>>()];
+    for j in 0..8usize {
+        let mut last = vec![0u16; 12];
+        last[j] = 1;
+        v.push(last);
+        let mut first = vec![1u16; 12];
+        first[j] = 0;
+        v.push(first);
+    }
+    v
+}
+
+/// enumerated order cases: every single-parameter boundary row under every systematic order, every pair row reversed
+fn order_rows() -> Vec<Case> {
+    let mut out = vec![];
+    let orders = systematic_orders();
+    for c in single_rows() {
+        for o in &orders {
+            out.push(Case { order: Some(o.clone()), ..c.clone() });
+        }
+    }
+    for c in pair_rows() {
+        out.push(Case { order: Some(orders[0].clone()), ..c });
+    }
+    out
+}
+
+/// random order cases: a random full assignment (in half of the cases with a history) under a random permutation of the calls
+fn order_strategy() -> impl Strategy<Value = Case> {
+    (
+        prop_oneof![combo_strategy(), history_strategy()],
+        proptest::collection::vec(0u16..12, 12),
+    )
+        .prop_map(|(c, keys)| Case { order: Some(keys), ..c })
 }
 
 pub fn property() -> Property {
@@ -347,7 +392,10 @@ pub fn property() -> Property {
                History sub-checks: two assignments v1, v2 (constructor-only parameters shared); a builder is configured with v1, one of {check_ref, check on a copy, \
                training entry point} runs on it, then the same builder or a clone of it is re-configured to v2 through the setters and must be indistinguishable from a \
                fresh builder with v2. Enumerated: every ordered pair of grid values of every parameter; random: two full assignments. Non-trivial there = v1 valid and v2 \
-               invalid, or both valid and trainable with different training results",
+               invalid, or both valid and trainable with different training results. Order sub-checks: the setter and builder-transforming calls (with_rng, dist_fn / nn_algo, \
+               with_kernel_params, with_platt_params, ...) of a row are applied in a generated permutation; verdict, error text, checked value, builder equality and training result \
+               must equal those of the canonical call order (and the getters the generated values). Enumerated: every single row under 'reversed', 'call j first', 'call j last'; \
+               every pair row reversed; random: full assignments (half of them with a history) under a random permutation",
         assumptions: builders::assumptions(),
         subs: vec![
             prop_sub("random_combinations", 40000, 1200000, |_t: Tier| combo_strategy(), check_case).chunks(16),
@@ -356,6 +404,8 @@ pub fn property() -> Property {
             enum_sub("single_rows", |_t: Tier| single_rows(), check_case).chunks(8),
             prop_sub("history_random", 30000, 600000, |_t: Tier| history_strategy(), check_case).chunks(16),
             enum_sub("history_rows", |_t: Tier| history_rows(), check_case).chunks(16),
+            prop_sub("order_random", 25000, 400000, |_t: Tier| order_strategy(), check_case).chunks(16),
+            enum_sub("order_rows", |_t: Tier| order_rows(), check_case).chunks(16),
         ],
     }
 }
